@@ -143,8 +143,10 @@ def unit_same(u1, u2):
 
 def eq_clauses(env, a, b, eq_result, hash_same):
     sv = same_value(a, b)
-    return [("eq-iff-same-kind-and-value", ["C18", "C17"], Iff(eq_result, sv)),
-            ("equal-values-hash-equal", ["C18"], Implies(sv, hash_same))]
+    # C14 / C15: the two dedup tables of the search (dict keys: values, tuples of values) are only as good as
+    # the agreement of __eq__ and __hash__
+    return [("eq-iff-same-kind-and-value", ["C18", "C17", "C14", "C15"], Iff(eq_result, sv)),
+            ("equal-values-hash-equal", ["C18", "C14", "C15"], Implies(sv, hash_same))]
 
 
 def roundtrip_clauses(env, x, r, eq_result, shape_ok=None):
